@@ -30,6 +30,40 @@ claim(
     "DESIGN.md section 4, C17",
 )
 
+claim(
+    "C04",
+    "symbolic path enumeration of get_wait_dependency over all queue configurations vs a queue model; all-path hazard-kind check of conflicts(); "
+    "access-set field coverage from api.py; CFG dominance for wait/BLOCKDEP emission order; axis-role homogeneity; comparison polarity",
+    "Decides clauses a-f' of DESIGN.md 4/C04: RAW/WAR/WAW all tested, every address-bearing API field in the access set with the right direction, "
+    "access sets frozen once memoised, queue bounds / scanned queue / wait kind and count / retirement equal the hardware queue model for every "
+    "configuration and conflict pattern (U55 and U65 limits), waits and BLOCKDEP emitted before every NPU_OP, block-dependency geometry axis-consistent, "
+    "overlap predicates no weaker than half-open overlap. Does NOT decide that the BLOCKDEP value is sufficient under the hardware timing model.",
+    "Trusted: the queue model written in the checker (oldest-first retirement, per-kind capacity); Python asserts enabled; name-based axis roles.",
+    "DESIGN.md section 4, C04",
+)
+claim(
+    "C05",
+    "reaching-definitions provenance in a multiple-of-alignment domain; linear-form normalisation of comparisons over a finite ordering domain; "
+    "loop ranking check on the CFG; closed-interval convention table",
+    "Decides clauses a-d' of DESIGN.md 4/C05: every address reaching an assignment sink is 0 / a copied address / round_up(., the range's alignment) and "
+    "alignment requests only grow; end_time is inclusive at every interval expansion; totals are the max-end fold; HillClimb's loops have a ranking; "
+    "overlap/fit/liveness comparisons are no weaker than canonical, the gap that is tested is the offset that is taken, and an aborted partial "
+    "allocation can never pass search()'s acceptance test. Does NOT decide non-overlap for all range sets (an inductive argument over three search algorithms).",
+    "Trusted: numeric_util.round_up returns a multiple of its second argument (its body is ((a+b-1)//b)*b); recognised idiom tables of the three allocators.",
+    "DESIGN.md section 4, C05",
+)
+claim(
+    "C06",
+    "abstract interpretation (bit-provenance domain, all paths) of the emitter and the register generators against the ethos_u55_regs bit-field spec "
+    "and api.py; table totality / name agreement; role agreement of register names and values; CFG dominance of alignment checks; stop placement",
+    "Decides clauses a-h of DESIGN.md 4/C06: every operation class and enum member has the right encoding; precision / broadcast / activation / "
+    "kernel-stride parameters are packed at the spec's bit positions for every enum combination; each register gets the operand/axis/side/tile its name "
+    "says and every API field reaches an emission; elision keys contain everything that is emitted and NPU_OP/waits bypass elision; word layout of "
+    "cmd0/cmd1; alignment checks dominate emissions; exactly one stop, last. Does NOT decide truncation of run-time magnitudes or decoded==input per history.",
+    "Trusted: ethos_u55_regs.py as hardware spec; the frozen TRM bit table of NPU_SET_KERNEL_STRIDE; name-based roles; asserts enabled.",
+    "DESIGN.md section 4, C06",
+)
+
 
 def build():
     checks = []
